@@ -67,10 +67,10 @@ LINEAGES = {
     'quick': ('EEO', 'OE'),
     'thorough': ('EEO', 'EOE', 'OEO', 'OO'),
 }
-BASE_SEEDS = {'quick': (1, 4), 'thorough': tuple(range(24))}   # fixed list, used for each of the four languages
-EXTRA_SEEDS = {'quick': 1, 'thorough': 6}     # additional seeds drawn from VERIF_SEED (extend, never replace)
+BASE_SEEDS = {'quick': (1, 3, 4), 'thorough': tuple(range(40))}   # fixed list, used for each of the four languages
+EXTRA_SEEDS = {'quick': 1, 'thorough': 8}     # additional seeds drawn from VERIF_SEED (extend, never replace)
 WORKERS = {'quick': 8, 'thorough': 12}        # the real generator / translators / mutations cost 1-15 s per lineage
-BUDGET_S = {'quick': 50, 'thorough': 800}     # tasks not finished in time are counted in `unfinished_tasks`
+BUDGET_S = {'quick': 42, 'thorough': 780}     # tasks not finished in time are counted in `unfinished_tasks`
 
 
 class _R:
@@ -435,7 +435,8 @@ def run_lineage(R, lang, seed, word, stop_first=False):
     def bad(check, function, stage, **kw):
         if any(v['check'] == 'bounded[%s]' % check for v in out['violations']):
             return
-        v = dict(check='bounded[%s]' % check, function=function, language=lang, seed=seed, lineage=word, stage=stage)
+        v = dict(check='bounded[%s]' % check, function=function, language=lang, seed=seed, lineage=word, stage=stage,
+                 pythonhashseed=os.environ.get('PYTHONHASHSEED'))
         v.update(kw)
         out['violations'].append(v)
 
